@@ -34,3 +34,5 @@ def run(ctx):
             else:
                 ctx.add_violation("correspondence", scn, f["reason"])
     base.run_twin(ctx, "rejected_vs_never_made", scns)
+    scaled = [TW.gen_c17_scaled(ctx.seed, i) for i in range(ctx.scale(250, 3000))]
+    base.run_twin(ctx, "rejected_vs_never_made", scaled)
